@@ -13,7 +13,26 @@ TRUSTED = [
 
 def split_abc(res):
     ia, ib, ic = res.index('A'), res.index('B'), res.index('C')
-    return res[ia + 1:ib], res[ib + 1:ic], res[ic + 1:]
+    ii = res.index('I') if 'I' in res[ic:] else len(res)
+    if ii < len(res):
+        ii = ic + res[ic:].index('I')
+    return res[ia + 1:ib], res[ib + 1:ic], res[ic + 1:ii], res[ii + 1:]
+
+
+def integrator_faces(toks):
+    """`FN k {left right shift area centroid} FS k {...}` -> {'FN': [...], 'FS': [...]}"""
+    out = {}
+    t = Tok(toks)
+    while t.peek() in ('FN', 'FS'):
+        tag = t.next()
+        k = t.int()
+        fs = []
+        for _ in range(k):
+            left, right = t.int(), t.optint()
+            shift = parse_opt_v3(t)
+            fs.append((left, right, shift, t.f(), t.v3()))
+        out[tag] = fs
+    return out
 
 
 def run(chk):
@@ -32,7 +51,7 @@ def run(chk):
         chk.count()
         rp = {'op': 'lowdim', 'ids': [r.id], 'family': r.family, 'record': r.line[:8000]}
         inp = parse_input(r.inp[:r.inp.index('B')])
-        A, B, C = split_abc(r.res)
+        A, B, C, I = split_abc(r.res)
         if A[0] == 'PANIC' or B[0] == 'PANIC':
             if (A[0] == 'PANIC') != (B[0] == 'PANIC'):
                 chk.violation('impl-vs-impl', 'construction panics depending on the unused coordinates (record %d, %s): %s / %s' % (r.id, r.family, ' '.join(A[:4]), ' '.join(B[:4])), rp, key='unused-coords')
@@ -54,6 +73,22 @@ def run(chk):
             if abs(sum(x * x for x in nrm) - 1) > tol.unit * 4 or any(nrm[a] != 0 for a in range(d, 3)):
                 chk.violation('impl-vs-oracle', 'face %d|%s has normal %s: not a unit vector inside the active subspace (record %d, %s)' % (f.left, f.right, fl3(nrm), r.id, r.family), rp, key='normal')
                 break
+        # (ii') the integrator's face integrals (all faces per cell, and the symmetric variant): no face orthogonal to the
+        # active subspace (a cap of the unit slab has its centroid at +-1/2 along an unused axis and no right generator)
+        if I and I[0] != 'PANIC':
+            fi = integrator_faces(I)
+            stored = sorted((f.left, -1 if f.right is None else f.right, f.shift is not None) for f in va['faces'])
+            for tag in ('FN', 'FS'):
+                for (left, right, shift, area, cen) in fi.get(tag, []):
+                    if area is not None and abs(area) <= tol.area * 100:
+                        continue      # negligible face: its centroid is 0/0 noise
+                    if any(x is None for x in cen) or any(abs(cen[a]) > Fraction(1, 10 ** 3) for a in range(d, 3)):
+                        chk.violation('impl-vs-oracle', 'face integral (%s) of cell %d towards %s has its centroid %s outside the active subspace: a face orthogonal to it is reported (record %d, %s)'
+                                      % (tag, left, right, fl3(cen), r.id, r.family), rp, key='gen-on-wall' if (right is None and gen_on_wall(inp, left)) else 'orthogonal-face')
+                        break
+            sym = sorted((l, -1 if rr is None else rr, sh is not None) for (l, rr, sh, _, _) in fi.get('FS', []))
+            if sym != stored:
+                chk.violation('impl-vs-oracle', 'symmetric face integrals of the %dD integrator list %d faces, the tessellation stores %d (record %d, %s)' % (d, len(sym), len(stored), r.id, r.family), rp, key='orthogonal-face')
         if tol.ill:
             chk.extra_cov['ill_conditioned_skipped'] = chk.extra_cov.get('ill_conditioned_skipped', 0) + 1
             continue
